@@ -1,3 +1,4 @@
+import BoolFn.Proofs.RefParse
 import BoolFn.Proofs.Grammar
 import BoolFn.Proofs.ParserTotal
 /-! # C12 — Parsed text means what it says: NOT binds tighter than AND, AND than OR
@@ -71,5 +72,26 @@ example : DOr [.lit ['a'], .or, .lit ['b'], .and, .not, .lit ['c']]
 example : DOr [.paren [.lit ['a'], .or, .lit ['b']], .and, .lit ['c']]
     (.and [.or [.lit "a", .lit "b"], .lit "c"]) :=
   (grammar _ _).mp rfl
+
+/-- **the reference reading used as the oracle is the model of `from_str`** on every string: the
+    independent recursive-descent parser over the independent longest-match lexer returns exactly what
+    the tokenizer + precedence-splitting parser returns -/
+theorem oracle_is_model (s : String) :
+    refParse s = (match parse s with | .ok e => some e | .error _ => none) := by
+  have hl := lexer s.toList
+  simp only [refParse, parse]
+  cases ht : tokenize s.toList with
+  | error er =>
+    rw [ht] at hl
+    rw [← hl]
+  | ok ts =>
+    rw [ht] at hl
+    rw [← hl]
+    simp only
+    exact refParseTokens_eq_parseTokens ts
+
+/-- … and both are the grammar -/
+theorem oracle_is_grammar (ts : List Tok) (e : Expr String) : refParseTokens ts = some e ↔ DOr ts e :=
+  refParseTokens_iff ts e
 
 end BoolFn.C12
